@@ -53,18 +53,26 @@ impl C20 {
         let snap = w.snapshot();
         let (x, y) = (w.users[0].clone(), w.users[1].clone());
         let fee = s.fpost.cfg.create_farm_fee.clone();
-        let reward = coin(5_000, "uusdc");
         self.probe_n += 1;
-        let mk = |id: String, start: u64| FarmAction::Create { params: FarmParams { lp_denom: lp.clone(), start_epoch: Some(start), preliminary_end_epoch: Some(start + 2), curve: None, farm_asset: reward.clone(), farm_identifier: Some(id) } };
-        if !w.apply(&farm_op(&x, mk(format!("old{}", self.probe_n), cur + 1), farm_funds(&reward, &fee))).is_ok() {
-            w.restore(&snap);
-            return;
+        let room = s.fpost.cfg.max_concurrent_farms - s.fpost.farms.values().filter(|f| f.lp_denom == lp).count() as u32;
+        // the blocked owner gets up to two expired farms paying different tokens, so that one of
+        // the refunds can be frozen while the other must still arrive
+        let olds = [coin(5_000, "uwbtc"), coin(7_000, "ux12")];
+        let n_old = (room as usize).min(2);
+        let mk = |id: String, start: u64, reward: &cosmwasm_std::Coin| FarmAction::Create { params: FarmParams { lp_denom: lp.clone(), start_epoch: Some(start), preliminary_end_epoch: Some(start + 2), curve: None, farm_asset: reward.clone(), farm_identifier: Some(id) } };
+        for (i, reward) in olds.iter().take(n_old).enumerate() {
+            if !w.apply(&farm_op(&x, mk(format!("old{}x{i}", self.probe_n), cur + 1, reward), farm_funds(reward, &fee))).is_ok() {
+                w.restore(&snap);
+                return;
+            }
         }
-        // far beyond the farm's end and the expiration time
+        // far beyond the farms' end and the expiration time
         w.advance((4 + 1) * w.cfg.epoch_duration + s.fpost.cfg.farm_expiration_time + 10);
         let later = fobserve(w).epoch.unwrap_or(cur + 40);
         let base = w.snapshot();
-        let create = farm_op(&y, mk(format!("new{}", self.probe_n), later + 1), farm_funds(&reward, &fee));
+        let before = fobserve(w);
+        let reward = coin(5_000, "uusdc");
+        let create = farm_op(&y, mk(format!("new{}", self.probe_n), later + 1, &reward), farm_funds(&reward, &fee));
         let reference = w.apply(&create);
         if !reference.is_ok() {
             w.restore(&snap);
@@ -72,9 +80,16 @@ impl C20 {
         }
         let (ro, rf) = (observe(w), fobserve(w));
         w.restore(&base);
-        w.mon.borrow_mut().fail_send_to = Some(x.to_string());
+        // variant A: the owner cannot receive anything; variant B: one token is frozen
+        let by_denom = n_old == 2 && self.probe_n % 2 == 0;
+        if by_denom {
+            w.mon.borrow_mut().fail_denom = Some("uwbtc".to_string());
+        } else {
+            w.mon.borrow_mut().fail_send_to = Some(x.to_string());
+        }
         let out = w.apply(&create);
         w.mon.borrow_mut().fail_send_to = None;
+        w.mon.borrow_mut().fail_denom = None;
         let (o, f) = (observe(w), fobserve(w));
         let mut errs = vec![];
         if !out.is_ok() {
@@ -83,34 +98,39 @@ impl C20 {
             if f.farms != rf.farms || f.positions != rf.positions {
                 errs.push("farms / positions differ from the unblocked run".to_string());
             }
-            // every refund the unblocked run sent to the blocked owner (it may own several of
-            // the farms that expired meanwhile, paying different tokens) stays in the contract
-            let mut blocked: BTreeMap<String, u128> = BTreeMap::new();
-            for e in reference.log().iter().filter(|e| e.to == x.as_str() && e.from == w.fm.as_str()) {
-                for c in &e.coins {
-                    *blocked.entry(c.denom.clone()).or_default() += c.amount.u128();
+            // expectation from the farms' own records (not from the transfers the code chose to
+            // make): each farm closed by the creation refunds its own remainder to its own owner,
+            // and exactly the refunds that hit the block stay in the contract
+            let mut blocked: BTreeMap<(String, String), u128> = BTreeMap::new();
+            for (id, g) in &before.farms {
+                if rf.farms.contains_key(id) {
+                    continue;
+                }
+                let hit = if by_denom { g.farm_asset.denom == "uwbtc" } else { g.owner == x };
+                if hit {
+                    *blocked.entry((g.owner.to_string(), g.farm_asset.denom.clone())).or_default() += g.farm_asset.amount.u128().saturating_sub(g.claimed_amount.u128());
                 }
             }
             for (acct, bals) in &ro.bal {
                 for (d, amt) in bals {
                     let mut exp = *amt as i128;
-                    let b = blocked.get(d).copied().unwrap_or(0) as i128;
-                    if acct == x.as_str() {
-                        exp -= b;
+                    if let Some(b) = blocked.get(&(acct.clone(), d.clone())) {
+                        exp -= *b as i128;
                     }
                     if acct == w.fm.as_str() {
-                        exp += b;
+                        exp += blocked.iter().filter(|((_, bd), _)| bd == d).map(|(_, b)| *b as i128).sum::<i128>();
                     }
                     if o.bal.get(acct).and_then(|m| m.get(d)).copied().unwrap_or(0) as i128 != exp {
-                        errs.push(format!("balance of {} in {d} differs from the unblocked run beyond the blocked refunds", w.name_of(acct)));
+                        errs.push(format!("balance of {} in {d} differs from the unblocked run beyond the refunds that were blocked ({})", w.name_of(acct), if by_denom { "uwbtc frozen" } else { "owner cannot receive" }));
                     }
                 }
             }
         }
+        let _ = &reference;
         if errs.is_empty() {
-            rep.held("tolerated_refund_failure", hash_of(&("auto_close_probe", fee.amount.is_zero())), || json!({"scenario": "expired farm auto-closed by another user's creation while its owner cannot receive transfers", "creation": "succeeds", "rest": "identical to the unblocked run"}));
+            rep.held("tolerated_refund_failure", hash_of(&("auto_close_probe", fee.amount.is_zero(), n_old, by_denom)), || json!({"scenario": "expired farms auto-closed by another user's creation", "expired_farms_of_blocked_owner": n_old, "block": if by_denom { "one reward token frozen" } else { "owner cannot receive transfers" }, "creation": "succeeds", "rest": "identical to the unblocked run; only the blocked refunds stay in the contract"}));
         } else {
-            rep.failed("tolerated_refund_failure", None, errs.join("; "), witness(json!({"scenario": "auto close with blocked refund"})));
+            rep.failed("tolerated_refund_failure", None, errs.join("; "), witness(json!({"scenario": "auto close with blocked refund", "by_denom": by_denom, "old_farms": n_old})));
         }
         w.restore(&snap);
     }
